@@ -3,6 +3,7 @@
 From Coq Require Import List NArith Bool Arith.
 Import ListNotations.
 From Grip Require Export Model.Bytes Model.KVGraph.
+From Grip Require Import Model.Keys.
 
 Inductive hop :=
 | HOp (o : op)
@@ -18,7 +19,7 @@ Definition sort_items (l : list item) : list item := fold_right ins [] l.
 
 Definition U_graphs : list id := [1; 2]%N.
 Definition U_ids : list id := [1; 2; 3]%N.
-Definition U_filters : list (list id) := [[]; [1]; [2]]%N.
+Definition U_filters : list (list id) := [[]; [1]; [2]; [2; 1]]%N.
 Definition U_labels : list id := [1; 2]%N.
 
 Definition vitem (x : id * (id * dat)) : item := [fst x; fst (snd x); snd (snd x)].
@@ -105,7 +106,9 @@ Fixpoint scan_elems (h : ghost) (xs : list (id * elem)) (rv re : bool) : ghost *
   end.
 
 (* per step: (op succeeded?, which graphs' timestamps changed, observations) *)
-Record stepobs := { so_ok : bool; so_ts : list bool; so_q : list query }.
+(* so_stale: a graph reported a timestamp it had reported earlier in the history while its content was different (never, in the
+   model and in the specification: a client that revalidates by timestamp must not be served stale results, restarts included) *)
+Record stepobs := { so_ok : bool; so_ts : list bool; so_stale : bool; so_q : list query }.
 
 (* the timestamp of a graph is only observable while the graph exists *)
 Definition ts_obs (m : mstate) (g : id) : option nat := if has_graph (kv m) g then ts_of m g else None.
@@ -127,17 +130,17 @@ Definition hstep (h : hstate) (x : hop) : hstate * (stepobs * stepobs * stepobs 
       let h' := {| h_m := m'; h_a := a'; h_gh := Some gh2; h_relabel := rv; h_reedge := re;
                    h_deleted := h_deleted h || (ok && is_delete o) |} in
       let qs := observe_model (kv m') in
-      (h', ({| so_ok := ok; so_ts := ts_changed (h_m h) m'; so_q := map snd qs |},
-            {| so_ok := aok; so_ts := map (fun g => aok && N.eqb g (op_graph o)) U_graphs; so_q := map snd (observe_spec a') |},
-            {| so_ok := aok; so_ts := map (fun g => aok && N.eqb g (op_graph o)) U_graphs; so_q := map snd (observe_spec a') |},
+      (h', ({| so_ok := ok; so_ts := ts_changed (h_m h) m'; so_stale := false; so_q := map snd qs |},
+            {| so_ok := aok; so_ts := map (fun g => aok && N.eqb g (op_graph o)) U_graphs; so_stale := false; so_q := map snd (observe_spec a') |},
+            {| so_ok := aok; so_ts := map (fun g => aok && N.eqb g (op_graph o)) U_graphs; so_stale := false; so_q := map snd (observe_spec a') |},
             map fst qs))
   | HRestart =>
       let m' := reopen (kv (h_m h)) in
       let qs := observe_model (kv m') in
       ({| h_m := m'; h_a := h_a h; h_gh := h_gh h; h_relabel := h_relabel h; h_reedge := h_reedge h; h_deleted := h_deleted h |},
-       ({| so_ok := true; so_ts := []; so_q := map snd qs |},
-        {| so_ok := true; so_ts := []; so_q := map snd (observe_spec (h_a h)) |},
-        {| so_ok := true; so_ts := []; so_q := map snd (observe_spec (h_a h)) |}, map fst qs))
+       ({| so_ok := true; so_ts := []; so_stale := false; so_q := map snd qs |},
+        {| so_ok := true; so_ts := []; so_stale := false; so_q := map snd (observe_spec (h_a h)) |},
+        {| so_ok := true; so_ts := []; so_stale := false; so_q := map snd (observe_spec (h_a h)) |}, map fst qs))
   | HCrash o n =>
       let m' := crash (h_m h) o n in
       let qs := observe_model (kv m') in
@@ -156,9 +159,9 @@ Definition hstep (h : hstate) (x : hop) : hstate * (stepobs * stepobs * stepobs 
                  | _ => gh1 end in
       ({| h_m := m'; h_a := if done then a_after else h_a h; h_gh := if done then Some gh2 else h_gh h; h_relabel := rv; h_reedge := re;
           h_deleted := h_deleted h || (done && is_delete o) |},
-       ({| so_ok := true; so_ts := []; so_q := map snd qs |},
-        {| so_ok := true; so_ts := []; so_q := map snd (observe_spec (h_a h)) |},
-        {| so_ok := true; so_ts := []; so_q := map snd (observe_spec a_after) |}, map fst qs))
+       ({| so_ok := true; so_ts := []; so_stale := false; so_q := map snd qs |},
+        {| so_ok := true; so_ts := []; so_stale := false; so_q := map snd (observe_spec (h_a h)) |},
+        {| so_ok := true; so_ts := []; so_stale := false; so_q := map snd (observe_spec a_after) |}, map fst qs))
   end.
 
 Fixpoint hrun (h : hstate) (xs : list hop) : list (hstate * (stepobs * stepobs * stepobs * list qkind)) :=
@@ -185,13 +188,43 @@ Definition masked (h : hstate) (k : qkind) : option nat :=
 (* GetEdge with duplicate records returns whichever key sorts last: not compared with the model there *)
 Definition model_skip (h : hstate) (k : qkind) : bool := match k with QGetE => h_reedge h | _ => false end.
 
-Record c03_case := { chist : list hop; cobs : list stepobs }.
+(* ---------- the crash clause of C04 on the real keys, for graphs beyond the three-id universe of the histories ----------
+   Every by-source and by-destination entry names an edge record that exists, and every edge record has both entries
+   (keys of kvgraph/keys.go, parsed at their separator bytes and rebuilt with the constructors of Model/Keys.v). *)
+Fixpoint split0_aux (cur k : bytes) : list bytes :=
+  match k with
+  | [] => [rev cur]
+  | b :: r => if N.eqb b 0 then rev cur :: split0_aux [] r else split0_aux (b :: cur) r
+  end.
+Definition split0 (k : bytes) : list bytes := split0_aux [] k.
+Definition has_key (ks : list bytes) (k : bytes) : bool := existsb (beqb k) ks.
+Definition key_consistent (ks : list bytes) (k : bytes) : bool :=
+  match split0 k with
+  | [t; g; a; b; c; l; _] =>
+      if beqb t tag_e then has_key ks (src_key g b c a l) && has_key ks (dst_key g b c a l)      (* e|g|id|src|dst|label *)
+      else if beqb t tag_s then has_key ks (edge_key g c a b l)                                  (* s|g|src|dst|id|label *)
+      else if beqb t tag_d then has_key ks (edge_key g c b a l)                                  (* d|g|dst|src|id|label *)
+      else true
+  | _ => true
+  end.
+Definition keys_consistent (ks : list bytes) : bool := forallb (key_consistent ks) ks.
+
+Example keys_consistent_sane :
+  let g := [103; 49]%N in let e := [101; 49]%N in let a := [97]%N in let b := [98]%N in let l := [76]%N in
+  keys_consistent [vertex_key g a; edge_key g e a b l; src_key g a b e l; dst_key g a b e l] = true /\
+  keys_consistent [edge_key g e a b l; dst_key g a b e l] = false /\          (* an edge record without its by-source entry *)
+  keys_consistent [vertex_key g a; src_key g a b e l] = false /\              (* an entry whose edge record is gone *)
+  keys_consistent [dst_key g a b e l; edge_key g e b a l; src_key g b a e l] = false.  (* entries of another edge *)
+Proof. vm_compute. auto. Qed.
+
+(* ckeys: raw key dumps of a store reopened after a crash inside a call (each must be consistent); [] for plain histories *)
+Record c03_case := { chist : list hop; cobs : list stepobs; ckeys : list (list bytes) }.
 
 Fixpoint zip3 {A B C} (a : list A) (b : list B) (c : list C) : list (A * B * C) :=
   match a, b, c with x :: a', y :: b', z :: c' => (x, y, z) :: zip3 a' b' c' | _, _, _ => [] end.
 
 Definition obs_flags_eqb (a b : stepobs) : bool :=
-  Bool.eqb (so_ok a) (so_ok b) && list_eqb Bool.eqb (so_ts a) (so_ts b).
+  Bool.eqb (so_ok a) (so_ok b) && list_eqb Bool.eqb (so_ts a) (so_ts b) && Bool.eqb (so_stale a) (so_stale b).
 
 (* GetEdge observed = at most one record; with duplicates the model lists all: compare as membership *)
 Definition q_agree (k : qkind) (model observed : query) : bool :=
@@ -249,7 +282,10 @@ Fixpoint walk (rs : list (hstate * (stepobs * stepobs * stepobs * list qkind))) 
   | _, _, _ => (true, true, [])
   end.
 
-Definition eval_case (c : c03_case) := walk (hrun hinit (chist c)) (chist c) (cobs c).
+Definition eval_case (c : c03_case) : bool * bool * list nat :=
+  let '(mm, sv, kf) := walk (hrun hinit (chist c)) (chist c) (cobs c) in
+  let bad := negb (forallb keys_consistent (ckeys c)) in
+  (mm || bad, sv || bad, kf).
 
 Fixpoint idx_where {X} (p : X -> bool) (i : nat) (l : list X) : list nat :=
   match l with [] => [] | x :: r => if p x then i :: idx_where p (S i) r else idx_where p (S i) r end.
